@@ -351,7 +351,13 @@ fn parse_attributes(data: &str) -> Result<AttrMap, Error> {
             } else {
                 value.trim_matches('"').to_string()
             };
-            attributes.insert(key, &value);
+            // Un valor entre comillas es un texto (p.e. el nombre "101" de un espacio),
+            // aunque su contenido parezca un número
+            if l.splitn(2, '=').nth(1).map(|v| v.trim().starts_with('"')).unwrap_or(false) {
+                attributes.insert_str(key, &value);
+            } else {
+                attributes.insert(key, &value);
+            }
         } else {
             bail!(
                 "No se ha podido extraer clave y atributo de la línea '{}' en '{:#?}'",
